@@ -32,7 +32,7 @@ PROPS = {
         "rule": "see parts: rapid-generated plantings of corpus documents in verified out-of-vocabulary context + enumeration of every embedded document; oracle = exact expected match (type, name, confidence 1.0, token span, lines) derived from construction; premise verified at token level",
         "assumptions": ["two planted copies never share a physical line (known finding F18, witness replayed)", "line attribution of a document's words is taken from the tokenizer run on the document alone"],
         "parts": [
-            part("v2in", "TestVerif_C01_Planted", "planted", 600, 8000, shards=(12, 16)),
+            part("v2in", "TestVerif_C01_Planted", "planted", 600, 12000, shards=(12, 16)),
             part("v2in", "TestVerif_C01_EveryDoc", "every-document", 0, 0, shards=(4, 16), enum=True),
         ],
     },
@@ -40,50 +40,50 @@ PROPS = {
         "rule": "rapid-generated exact / edited / truncated / concatenated license texts and scenario files matched against full and small corpora; oracle = independent banded word-level Levenshtein between the reported token span and the named corpus document: Confidence <= 1 - L/|K| (exact float comparison), Confidence == 1 only for identical spans, StartLine/EndLine = lines of first/last word; non-trivial = at least one fuzzy match; distinct = distinct (threshold, recipe)",
         "assumptions": ["token sequences of input and corpus documents are read white-box from the package's own tokenizer", "unknown words (id 0) never equal any word"],
         "parts": [
-            part("v2in", "TestVerif_C02", "similarity-bound", 1600, 16000, shards=(12, 16)),
+            part("v2in", "TestVerif_C02", "similarity-bound", 1600, 100000, shards=(12, 16)),
             part("v2in", "TestVerif_C02_OracleSelfTest", "oracle-selftest", 2000, 20000, shards=(1, 1)),
-            part("v2in", "TestVerif_C02_Lines", "line-attribution", 3000, 60000, shards=(6, 16)),
+            part("v2in", "TestVerif_C02_Lines", "line-attribution", 3000, 400000, shards=(6, 16)),
         ],
     },
     "C03": {
         "rule": "rapid-generated inputs (license recipes, hostile byte/fragment mixes, both) x corpora (full, small, tiny synthetic with awkward names) x thresholds in (0,1]; oracle = the well-formedness predicate of the statement evaluated on every result; non-trivial = result has at least one match",
         "assumptions": ["'number of lines in the input' is read as 1 + number of newline bytes (the loosest reading)", "a match with MatchType=Name=Copyright is a pseudo-match unless the corpus really holds such a document"],
-        "parts": [part("v2in", "TestVerif_C03", "well-formed", 1600, 24000, shards=(12, 16))],
+        "parts": [part("v2in", "TestVerif_C03", "well-formed", 1600, 120000, shards=(12, 16))],
     },
     "C04": {
         "rule": "four generated experiments with one oracle (bit-identical Results in identical order): call histories against a pristine reference, corpus rebuilt in permuted order / with unrelated documents / as a second instance, caller's byte slices (incl. spare capacity) unchanged, and repeated matching of tie-prone inputs within a process and across separate processes (digest comparison)",
         "assumptions": ["'unrelated' documents share no word with the input (verified per case)"],
         "parts": [
-            part("v2in", "TestVerif_C04_History", "history", 240, 3000, shards=(12, 16)),
-            part("v2in", "TestVerif_C04_Rebuild", "rebuild", 360, 6000, shards=(12, 16)),
-            part("v2in", "TestVerif_C04_CallerBytes", "caller-bytes", 400, 8000, shards=(4, 8)),
+            part("v2in", "TestVerif_C04_History", "history", 240, 5000, shards=(12, 16)),
+            part("v2in", "TestVerif_C04_Rebuild", "rebuild", 360, 10000, shards=(12, 16)),
+            part("v2in", "TestVerif_C04_CallerBytes", "caller-bytes", 400, 16000, shards=(4, 8)),
             part("v2in", "TestVerif_C04_Repeat", "repeat", 0, 0, shards=(4, 8), enum=True, compare_digest=True),
-            part("v2in", "TestVerif_C04_Repetitive", "repetitive", 1600, 40000, shards=(4, 16)),
-            part("v2in", "TestVerif_C04_Nested", "nested-documents", 1600, 40000, shards=(4, 16)),
+            part("v2in", "TestVerif_C04_Repetitive", "repetitive", 1600, 100000, shards=(4, 16)),
+            part("v2in", "TestVerif_C04_Nested", "nested-documents", 1600, 100000, shards=(4, 16)),
         ],
     },
     "C05": {
         "rule": "metamorphic: compositions of 1-4 presentation transformations applied at drawn positions of generated license-bearing inputs; oracle = identical token ids with monotonically mapped lines and identical canonical Match results (names, variants, confidences, token spans, mapped lines); lines ending in a dash and their continuation are exempt (frozen, counted); non-trivial = X has a license match and T(X) != X",
         "assumptions": ["the hyphen exemption is applied per line: a line whose last non-blank rune is a dash and everything up to the next non-blank line are never touched"],
-        "parts": [part("v2in", "TestVerif_C05", "presentation", 3000, 30000, shards=(12, 16))],
+        "parts": [part("v2in", "TestVerif_C05", "presentation", 3000, 150000, shards=(12, 16))],
     },
     "C06": {
         "rule": "metamorphic: notice/date line insertion, list-marker prefixes, hyphen splits, interchangeable spellings and http/https switches at drawn positions of generated license-bearing inputs; oracle: token ids unchanged, reported licenses unchanged (names, variants, confidences, token spans), inserted notices outside license spans reported as Copyright on exactly their line and no Copyright entry elsewhere; non-trivial = X has a license match and an operation was applied",
         "assumptions": ["position restrictions are evaluated with independent, generous predicates written in the harness (never with the tokenizer under test)", "open known findings F13 (<letter>) marker) and F14 (notice inside a reported license span) are excluded by construction / counted; their witnesses are replayed"],
-        "parts": [part("v2in", "TestVerif_C06", "ignorable-text", 3000, 30000, shards=(12, 16))],
+        "parts": [part("v2in", "TestVerif_C06", "ignorable-text", 3000, 150000, shards=(12, 16))],
     },
     "C07": {
         "rule": "metamorphic: Match(P+X+S) equals Match(X) shifted by |P| tokens and lines(P) lines, for generated X (exact, noisy, truncated, multi-license) and OOV blocks P, S; premise verified at token level; non-trivial = Match(X) non-empty and |P| > 0",
         "assumptions": ["tied matches are compared in canonical order (their relative order is C04's subject)"],
-        "parts": [part("v2in", "TestVerif_C07", "embedding", 2400, 30000, shards=(12, 16)),
+        "parts": [part("v2in", "TestVerif_C07", "embedding", 2400, 150000, shards=(12, 16)),
                   part("v2in", "TestVerif_C07_Offsets", "non-ascii-offset-sweep", 0, 0, shards=(4, 16), enum=True)],
     },
     "C08": {
         "rule": "differential: MatchFrom over generated read schedules vs Match on the same bytes vs Match on space-padded bytes (bit-identical Results), fault injection at drawn and at every offset (error returned, zero Results), exhaustive pad / fault / chunk sweeps on multi-byte-dense inputs",
         "assumptions": ["a failing reader keeps failing (sticky error), as io.Reader implementations do"],
         "parts": [
-            part("v2in", "TestVerif_C08_Fragmentation", "fragmentation", 1200, 16000, shards=(8, 16)),
-            part("v2in", "TestVerif_C08_Faults", "faults", 1600, 24000, shards=(4, 16)),
+            part("v2in", "TestVerif_C08_Fragmentation", "fragmentation", 1200, 100000, shards=(8, 16)),
+            part("v2in", "TestVerif_C08_Faults", "faults", 1600, 100000, shards=(4, 16)),
             part("v2in", "TestVerif_C08_Sweeps", "sweeps", 0, 0, shards=(8, 16), enum=True),
         ],
     },
@@ -91,7 +91,7 @@ PROPS = {
         "rule": "generated concurrent batches on one shared classifier under the Go race detector (invariant monitor) with result comparison against a sequential reference; see part rule",
         "assumptions": ["the Go scheduler is not owned by the harness: the race detector makes the verdict independent of the actual interleaving for the code paths executed, result equality under concurrency is sampled"],
         "timeout": {"quick": 600, "thorough": 3000},
-        "parts": [part("v2in", "TestVerif_C09", "concurrent-match", 12, 160, shards=(4, 8), race=True, prewrite=True, gomaxprocs=16)],
+        "parts": [part("v2in", "TestVerif_C09", "concurrent-match", 12, 600, shards=(4, 8), race=True, prewrite=True, gomaxprocs=16)],
     },
     "C10": {
         "rule": "structure-aware rapid generation (quick, thorough) and Go native coverage-guided fuzzing through four targets (thorough only) of byte inputs x thresholds in [0,1] x corpora (empty, empty documents, hostile documents, the input itself, full); oracle: no panic (recovered and reported with the input), no hang, public well-formedness predicate on every result",
@@ -106,7 +106,7 @@ PROPS = {
         "rule": "round trip / metamorphic: Normalize(X) line k == words Match attributes to line k, and Match(Normalize(X)) == Match(X) for licenses, over every embedded document, every scenario file and generated edited / decorated / concatenated inputs",
         "assumptions": ["Normalize by design keeps the original spelling; the comparison maps its words through an independent copy of the interchangeable-spelling table"],
         "parts": [
-            part("v2in", "TestVerif_C11", "generated", 1200, 16000, shards=(8, 16)),
+            part("v2in", "TestVerif_C11", "generated", 1200, 60000, shards=(8, 16)),
             part("v2in", "TestVerif_C11_EveryDoc", "every-document", 0, 0, shards=(4, 16), enum=True),
             part("v2in", "TestVerif_C11_Offsets", "non-ascii-offset-sweep", 0, 0, shards=(4, 16), enum=True),
         ],
@@ -114,26 +114,26 @@ PROPS = {
     "C12": {
         "rule": "generated directory trees x 12 spellings of the directory argument: LoadLicenses must not panic, must return nil, must ignore shallow and non-txt files and must equal an AddContent-built classifier (keys, token sequences, Match results on probes); DefaultClassifier vs LoadLicenses(assets) compared on every embedded document and scenario file",
         "assumptions": ["trees are created under the driver's scratch directory; the process working directory is changed for relative spellings (cases run sequentially)", "for trees with txt files deeper than category/name/variant only 'no panic, nil error' is asserted (the statement makes no claim about them)"],
-        "parts": [part("v2in", "TestVerif_C12_Trees", "trees", 1200, 16000, shards=(8, 16)),
+        "parts": [part("v2in", "TestVerif_C12_Trees", "trees", 1200, 100000, shards=(8, 16)),
                   part("ext", "TestVerif_C12_Default", "default-classifier", 0, 0, shards=(4, 16), enum=True)],
     },
     "C13": {
         "rule": "generated vocabularies, known-value sets, normaliser lists and unknown strings built around planted copies; constructive oracle (exact Offset/Extent/Confidence) with the premise checked on the normalised strings; see part rule",
         "assumptions": ["a 'copy' is any occurrence of the normalised value in the normalised unknown string found by a left-to-right non-overlapping scan", "panics on goroutines spawned by the library kill the process: the in-flight case is adopted by the driver"],
-        "parts": [part("strcls", "TestVerif_C13", "verbatim", 6000, 120000, shards=(8, 16), prewrite=True)],
+        "parts": [part("strcls", "TestVerif_C13", "verbatim", 6000, 2000000, shards=(8, 16), prewrite=True)],
     },
     "C14": {
         "rule": "generated concurrent workloads on one v1 classifier under the Go race detector with result comparison against a sequential reference (stringclassifier.Classifier populated lazily and precomputed; licenseclassifier.License built from an in-process archive)",
         "assumptions": ["schedules are sampled, not owned (see C09)", "queries are built so that the best match is unique (NearestMatch is documented as undefined on ties)"],
         "timeout": {"quick": 600, "thorough": 3000},
-        "parts": [part("strcls", "TestVerif_C14_StringClassifier", "stringclassifier", 160, 3000, shards=(8, 16), race=True, prewrite=True, gomaxprocs=8, timing_tolerant=True),
-                  part("rootpkg", "TestVerif_C14_License", "license", 24, 400, shards=(4, 16), race=True, prewrite=True, gomaxprocs=8, timing_tolerant=True)],
+        "parts": [part("strcls", "TestVerif_C14_StringClassifier", "stringclassifier", 160, 10000, shards=(8, 16), race=True, prewrite=True, gomaxprocs=8, timing_tolerant=True),
+                  part("rootpkg", "TestVerif_C14_License", "license", 24, 1200, shards=(4, 16), race=True, prewrite=True, gomaxprocs=8, timing_tolerant=True)],
     },
     "C15": {
         "rule": "differential: classifier loaded from the archive written by ArchiveLicenses vs classifier built directly from the same normalised texts with fresh search sets, over generated archives and queries; see part rule",
         "assumptions": ["license files <= 8 KiB keep go-diff's character-level diffs far from its 1 s wall-clock deadline", "NearestMatch name differences are accepted only when both names are shown to reach the same confidence"],
         "timeout": {"quick": 900, "thorough": 5400},
-        "parts": [part("rootpkg", "TestVerif_C15", "archive-roundtrip", 480, 8000, shards=(12, 16), timing_tolerant=True),
+        "parts": [part("rootpkg", "TestVerif_C15", "archive-roundtrip", 480, 20000, shards=(12, 16), timing_tolerant=True),
                   part("rootpkg", "TestVerif_C15_BigFiles", "big-files", 0, 0, shards=(8, 16), enum=True, timing_tolerant=True)],
     },
     "C16": {
@@ -142,15 +142,15 @@ PROPS = {
         "timeout": {"quick": 900, "thorough": 5400},
         "parts": [
             part("rootpkg", "TestVerif_C16_OwnCorpus", "own-corpus", 0, 0, shards=(12, 16), enum=True, timing_tolerant=True),
-            part("rootpkg", "TestVerif_C16_Threshold", "threshold-bound", 240, 4000, shards=(4, 16), timing_tolerant=True),
+            part("rootpkg", "TestVerif_C16_Threshold", "threshold-bound", 240, 20000, shards=(4, 16), timing_tolerant=True),
         ],
     },
     "C17": {
         "rule": "generated strings (all Unicode space / punctuation kinds, invalid UTF-8) for the tokenizer invariants; generated low-vocabulary source/target pairs for the candidate-range invariants of FindPotentialMatches and TargetRange",
         "assumptions": ["ordering of a candidate's ranges is read as non-decreasing TargetStart"],
         "parts": [
-            part("tokenizer", "TestVerif_C17_Tokenize", "tokenize", 20000, 400000, shards=(4, 16)),
-            part("searchset", "TestVerif_C17_Candidates", "candidates", 12000, 200000, shards=(8, 16)),
+            part("tokenizer", "TestVerif_C17_Tokenize", "tokenize", 20000, 20000000, shards=(4, 16)),
+            part("searchset", "TestVerif_C17_Candidates", "candidates", 12000, 10000000, shards=(8, 16)),
         ],
     },
     "C18": {
@@ -159,7 +159,7 @@ PROPS = {
         "timeout": {"quick": 600, "thorough": 3000},
         "parts": [
             part("commentparser", "TestVerif_C18_Enum", "small-scope", 0, 0, shards=(12, 16), enum=True, prewrite_watchdog=True, prewrite=False),
-            part("commentparser", "TestVerif_C18_Programs", "programs", 20000, 400000, shards=(4, 16)),
+            part("commentparser", "TestVerif_C18_Programs", "programs", 20000, 20000000, shards=(4, 16)),
         ],
     },
     "C19": {
@@ -167,9 +167,9 @@ PROPS = {
         "assumptions": ["'reported' is read as 'printed' (Copyright pseudo-matches included)", "file names contain no blanks (the output format is blank separated)", "-tasks >= 1"],
         "timeout": {"quick": 600, "thorough": 3000},
         "parts": [
-            part("ext", "TestVerif_C19_CLI", "cli", 64, 640, shards=(8, 16), cli=True),
-            part("ext", "TestVerif_C19_Backend", "backend", 120, 1500, shards=(4, 8), prewrite=True),
-            part("ext", "TestVerif_C19_Backend", "backend-race", 0, 200, shards=(0, 8), race=True, prewrite=True, tiers=["thorough"], env={"VERIF_PART": "backend"}),
+            part("ext", "TestVerif_C19_CLI", "cli", 64, 2000, shards=(8, 16), cli=True),
+            part("ext", "TestVerif_C19_Backend", "backend", 120, 5000, shards=(4, 8), prewrite=True),
+            part("ext", "TestVerif_C19_Backend", "backend-race", 0, 600, shards=(0, 8), race=True, prewrite=True, tiers=["thorough"], env={"VERIF_PART": "backend"}),
         ],
     },
     "C20": {
@@ -177,13 +177,13 @@ PROPS = {
                 "checked after every step, plus exhaustive small-scope enumerations; non-trivial and distinct are defined per part (see parts)",
         "assumptions": ["nil receivers are only used where the API documents them (Copy, Equal); Pop/Min on an empty queue are documented to panic and are not issued"],
         "parts": [
-            part("sets", "TestVerif_C20_SetRandom", "stringset-random", 4000, 100000),
+            part("sets", "TestVerif_C20_SetRandom", "stringset-random", 4000, 3000000),
             part("sets", "TestVerif_C20_SetPairs", "stringset-pairs", 0, 0, shards=(1, 1), enum=True),
             part("sets", "TestVerif_C20_SetSeqs", "stringset-seqs", 0, 0, shards=(4, 16), enum=True),
-            part("intsets", "TestVerif_C20_SetRandom", "intset-random", 4000, 100000),
+            part("intsets", "TestVerif_C20_SetRandom", "intset-random", 4000, 3000000),
             part("intsets", "TestVerif_C20_SetPairs", "intset-pairs", 0, 0, shards=(1, 1), enum=True),
             part("intsets", "TestVerif_C20_SetSeqs", "intset-seqs", 0, 0, shards=(4, 16), enum=True),
-            part("pq", "TestVerif_C20_PQRandom", "pq-random", 6000, 200000),
+            part("pq", "TestVerif_C20_PQRandom", "pq-random", 6000, 1000000),
             part("pq", "TestVerif_C20_PQEnum", "pq-enum", 0, 0, shards=(4, 16), enum=True),
         ],
     },
